@@ -141,10 +141,7 @@ def final_rng(st):
 
 
 PROPS = {}
-NOT_CLAIMED = {   # property id -> reason, for properties without a registered check
-    "C15": "not yet decided: the Lean model of VSS/DKG (lean/Tmcg/Model/Dkg.lean), its harness (harness/drv_dkg.cc, still in harness/WIP) and the proofs exist and agreed with the code on 352 runs, but they are being adapted to the repairs F21-F24 of /repo; no claim is made until the theorems are registered (DESIGN.md 11.2). The technique applies.",
-    "C20": "not yet decided: model, harness (harness/drv_pgpmsg.cc, in harness/WIP) and proofs of CFB/MDC, AEAD chunking, hash inputs and signature validity exist, being adapted to the repairs F18-F20; no claim is made until the theorems are registered (DESIGN.md 11.2). The technique applies.",
-}
+NOT_CLAIMED = {}   # property id -> reason, for properties without a registered check (none at present)
 
 PROPS["C07"] = dict(
     module="TmcgProps.C07",
@@ -1259,18 +1256,41 @@ def pred_c17(line, st):
     return None
 
 
+PROPS["C15"] = dict(
+    module="TmcgProps.C15",
+    areas=[("dkg", {"quick": 10, "thorough": 60}, ["--kind", "gen", "--par", "4"], "fast"),
+           ("dkg", {"quick": 8, "thorough": 40}, ["--kind", "vss", "--par", "4"], "fast")],
+    obligations=[("Tmcg.C15." + n, "full") for n in ["qual_agree'", "honest_in_qual'", 'share_check', 'share_check_iff', 'feldman_check', 'lagrange0_val', 'lagrange0_unique', 'interpolatePolynom_val', 'vss_reconstruct_honest', 'interpolate_secret', 'interpolate_secret_unique', 'share_matches_vk', 'checkKey_of_checks', 'vssRecv1_complains', 'vssRecv1_honest_dealer', 'genCheck4_sound', 'genReadAnswers_sound', 'genReadAnswers_answered', 'genResolveGo_share_valid', 'genResolve_qual', 'mkGrp_valid']],
+    predicate=pred_c15,
+    level_text="Theorems in Lean 4 about a model of PedersenVSS::Share/Reconstruct and GennaroJareckiKrawczykRabinDKG::Generate as synchronous rounds over n parties with coin lists and deviation scripts: "
+               "for ALL scripts of at most t other parties every honest party ends with the same QUAL and no honest party is disqualified; shares of the committed polynomials satisfy the share equations (iff opening), "
+               "the per-dealer checks a party performs give g^x_i = v_i and CheckKey, every t+1 shares interpolate to the same secret whose image is the product of the dealers' g^z_j (Lagrange/interpolation routines proved), "
+               "an honest dealer's secret is reconstructed, a bad share is complained about, published shares are verified and unanswered complaints disqualify. "
+               "Correspondence: the real classes as n = 2..7 forked parties over pipes with the real reliable broadcast (virtual clock), honest runs and 30 deviation kinds; the model recomputes every party's final state. "
+               "An independent predicate checks agreement on QUAL/y/v_i, g^x_i = v_i, interpolation of every (t+1)-subset, VSS consistency on the real outputs. "
+               "Partial: run-level success/key agreement for runs WITH reconstruction are checked by the predicate only; share refresh (CGJKR) is not covered.",
+    level_note=LEVEL_NOTE + " The reliable broadcast is abstracted to a consistent per-sender FIFO (property C14); synchrony as in the property's quantifier; n < 2^64.",
+    assumptions=["synchronous-round abstraction of the broadcast and of time-outs (a late message = a missing message)",
+                 "partial: share refresh (CanettiGennaroJareckiKrawczykRabinASTC) not covered; Generate-succeeds and key agreement for runs with reconstruction: predicate on real runs only",
+                 "the harness uses at most min(t, (n-1)/3) deviating parties where the real reliable broadcast is involved"],
+)
+
 PROPS["C16"] = dict(
     module="TmcgProps.C16",
-    areas=[("tsig", {"quick": 150, "thorough": 2000}, [], "san")],
+    areas=[("tsig", {"quick": 150, "thorough": 2000}, [], "san"),
+           ("dkg", {"quick": 6, "thorough": 30}, ["--kind", "sign", "--par", "4"], "fast")],
     obligations=[("Tmcg.C16.dssVerify_iff", "full"), ("Tmcg.C16.dssVerify_textbook_signature", "full"), ("Tmcg.C16.dssVerify_range", "full"),
-                 ("Tmcg.C16.ntsVerify_iff", "full"), ("Tmcg.C16.ntsVerify_textbook_signature", "full"), ("Tmcg.C16.ntsVerify_range", "full")],
+                 ("Tmcg.C16.ntsVerify_iff", "full"), ("Tmcg.C16.ntsVerify_textbook_signature", "full"), ("Tmcg.C16.ntsVerify_range", "full"),
+                 ("Tmcg.C16.sign_ntsVerify", "full"), ("Tmcg.C16.sign_verifies", "full"), ("Tmcg.C16.sign_relation_checked", "full"), ("Tmcg.C16.sign_relation_honest", "full")],
     predicate=pred_c16,
     level_text="Theorems in Lean 4: the models of CanettiGennaroJareckiKrawczykRabinDSS::Verify and GennaroJareckiKrawczykRabinNTS::Verify return true exactly on the textbook DSA resp. Schnorr acceptance condition "
                "(range conditions and verification equation written in ZMod p, independent of the model's routines) for every input, and accept every textbook signature. Correspondence: the real verifiers on textbook "
                "signatures made by the harness with a known key and on the range-boundary / mutation catalogue (r,s ± q, negated, 0, q, swapped, other key, key outside the group, forged for key 1), compared with the model "
-               "and judged by an independent Python evaluation of the equations. Partial: the threshold SIGNING runs (joint nonce, share combination, agreement of all honest parties) are not covered by this check yet.",
+               "and judged by an independent Python evaluation of the equations. Threshold Schnorr signing (GJKR NTS): theorems that the per-share checks an honest party performs, c = H(m, prod r_j) and s = sum s_j make the combined (c, s) accepted by the verifier model; "
+               "correspondence and predicate on real signing runs (n forked parties, bad/missing shares of up to t signers): all honest parties that complete hold the same (c, s), it satisfies the textbook equation and the library's verifier accepts it. "
+               "Partial: the threshold DSS protocol (CGJKR Sign) is not covered; only its verifier is.",
     level_note=LEVEL_NOTE + " The hash of the Schnorr verifier is an oracle parameter (answers logged from tmcg_mpz_shash).",
-    assumptions=["partial: threshold signing protocols (GJKR NTS Sign, CGJKR DSS Sign) not yet modelled: only the verifiers are decided"],
+    assumptions=["partial: CGJKR DSS threshold signing not modelled (its verifier is); NTS signing modelled on top of the synchronous DKG model"],
 )
 PROPS["C17"] = dict(
     module="TmcgProps.C17",
